@@ -35,7 +35,9 @@ def make_matcher(chk):
         except AnalysisBroken as ex:
             bad = fe.refute_on_grid(row, rhs, ops, small)
             if bad is None:
-                raise AnalysisBroken('%s (agrees with the specification on the boundary grid, which does not decide all operands)' % ex)
+                # not decided - the other rows still are (a violation elsewhere must not be hidden by this one)
+                chk.undecide('%s (agrees with the specification on the boundary grid, which does not decide all operands)' % ex)
+                return [], False
             return ['%s (shape not recognised: %s)' % (bad, str(ex)[:160])], True
         if not res[0]:
             try:
@@ -92,7 +94,19 @@ def run(chk):
     chk.require(len(rows) == 70, 'oracle lists %d float/conversion rows, expected 70' % len(rows))
     configs = [(0, 0), (1, 0)] if chk.tier == 'quick' else [(0, 0), (1, 0), (0, 1), (1, 1)]
     matcher, counters = make_matcher(chk)
-    c01.run_rows(chk, rows, configs, matcher, 'R02', chk.tier)
+    c01.run_rows(chk, rows, configs, matcher, 'R02', chk.tier, [('default', []), ('ndebug', ['-DNDEBUG', '-D__OPTIMIZE__=1'])])
+    # R02.7: float constants are values like any other: zeros, infinities, subnormals and NaNs of both signs written by the literal
+    # writer arrive bit-exact in their slot (concrete bit-pattern family shared with C07 R07.1, which owns the classification)
+    from . import c07
+    from .. import emit
+    tus7 = emit.translator_tus(('c.c', 'opcode.c', 'instruction.c', 'stringbuilder.c'), chk=chk)
+    it7 = emit.make_interp(tus7)
+    vts7 = c07.decode_valuetypes(it7)
+    for tname in ('f32', 'f64'):
+        bad = c07.concrete_literal_family(it7, tname, vts7[tname])
+        chk.expect(not bad, 'R02.7', tname + ':constants-bit-exact', '%s constants: %s' % (tname, bad), 'wasmCWriteLiteral/' + tname,
+                   detail_ok='zeros, infinities, quiet/signalling NaNs of both signs, subnormals and extremes keep their bit pattern')
+    chk.floor('R02.7', 2)
     n = len(rows) * len(configs)
     chk.floor('R02.1', n)
     chk.floor('R02.2', 3 * n)
